@@ -637,6 +637,24 @@ func (e *c14env) observe(path string) []string {
 	return out
 }
 
+// "reading version v returns exactly the data of the v-th write UNLESS that version was deleted": straight after an
+// ACCEPTED delete of named versions, none of them may still be served (judged on the code's own answers: no model)
+func (e *c14env) deletedStillServed(o c14op, res string) string {
+	if o.kind != "deletev" || o.vers == "-" || c14isErr(res) || (res != "resp" && res != "nil" && res != "warn") {
+		return ""
+	}
+	for _, f := range strings.Split(o.vers, ",") {
+		v, err := strconv.ParseInt(f, 10, 64)
+		if err != nil || v <= 0 {
+			continue
+		}
+		if r := e.exec(0, c14op{kind: "read", path: o.path, ver: v}); strings.HasPrefix(r, "ok:") {
+			return "!VIOL:the delete of versions " + o.vers + " of " + o.path + " was accepted, and version " + f + " is still served afterwards (" + r + ")#deleted-version-still-served"
+		}
+	}
+	return ""
+}
+
 // emit the observation ops as ordinary protocol lines (so that the model is compared on them, too)
 func (e *c14env) emitObserve(out *vh.Out, path string) string {
 	o := c14op{kind: "metaread", path: path}
@@ -908,6 +926,7 @@ func TestVerifC14Seq(t *testing.T) {
 			}
 			res := e.exec(0, o)
 			g.note(o, res)
+			res += e.deletedStillServed(o, res)
 			out.Op(res, o.fields()...)
 		}
 		for _, p := range g.paths {
